@@ -101,13 +101,13 @@ fn map_to_json(m: &HashMap<String, u32>) -> Value {
     Value::Object(out)
 }
 
-/// collect -> (optionally pack/unpack) -> apply on a fresh state; returns (fresh state, blob length).
-fn roundtrip(state: &LlamaState, blob: bool) -> Result<(LlamaState, usize), String> {
+/// collect -> (optionally pack/unpack) -> apply on a fresh state; returns (fresh state, blob as hex).
+fn roundtrip(state: &LlamaState, blob: bool) -> Result<(LlamaState, String), String> {
     let regs = collect_registers(state);
     let mut fresh = LlamaState::new();
     if blob {
         let payload = pack_registers(&regs);
-        let n = payload.len();
+        let hex: String = payload.iter().map(|b| format!("{b:02x}")).collect();
         let mut un = unpack_registers(&payload).map_err(|e| format!("unpack_registers: {e}"))?;
         for (k, v) in regs.iter() {
             if k.starts_with("TEMP") {
@@ -115,10 +115,10 @@ fn roundtrip(state: &LlamaState, blob: bool) -> Result<(LlamaState, usize), Stri
             }
         }
         apply_registers(&mut fresh, &un);
-        Ok((fresh, n))
+        Ok((fresh, hex))
     } else {
         apply_registers(&mut fresh, &regs);
-        Ok((fresh, 0))
+        Ok((fresh, String::new()))
     }
 }
 
@@ -160,12 +160,12 @@ fn run_seq(ops: &[Value], rt: &mut CoreRuntime) -> Result<Vec<Value>, String> {
             "all" => out.push(read_all(&st, rt)),
             "rt" | "rtb" => {
                 let before = read_all(&st, rt);
-                let (fresh_st, n1) = roundtrip(&st, verb == "rtb")?;
+                let (fresh_st, blob) = roundtrip(&st, verb == "rtb")?;
                 let (fresh_rt, _) = roundtrip(&rt.state, verb == "rtb")?;
                 st = fresh_st;
                 rt.state = fresh_rt;
                 let after = read_all(&st, rt);
-                out.push(json!({"before": before, "after": after, "blob_len": n1}));
+                out.push(json!({"before": before, "after": after, "blob": blob}));
             }
             "collect" => {
                 out.push(json!({"st": map_to_json(&collect_registers(&st)),
